@@ -49,10 +49,17 @@ class VectorReplayer(Replayer):
     def build2(self, o1, o2):
         import numpy as np
         c = self.Curve(self.mode.nums(o1["U"]))
-        c.ctrlpoints = [np.array([fr(a), fr(b)], dtype=object) for a, b in zip(o1["P"], o2["P"])]
+        arrays = [np.array([fr(a), fr(b)], dtype=object) for a, b in zip(o1["P"], o2["P"])]
+        # the arrays handed to the library stay the CALLER's values: kept with a snapshot, compared after the call
+        self.user_arrays = (arrays, [x.copy() for x in arrays])
+        c.ctrlpoints = arrays
         if o1["W"]:
             c.weights = self.mode.pts(o1["W"])
         return c
+
+    def user_arrays_changed(self):
+        arrays, snap = getattr(self, "user_arrays", ([], []))
+        return [i for i, (x, y) in enumerate(zip(arrays, snap)) if len(x) != len(y) or any(p != q for p, q in zip(x, y))]
 
     def curve_from(self, o):      # an operand given by value: both coordinates carry the same scalar curve
         import numpy as np
@@ -339,8 +346,9 @@ def vector_fitpoints(records, lib, validator, on_fail):
     return n
 
 
-def vector_replay(records, lib, on_fail):
-    """returns the number of paired calls executed"""
+def vector_replay(records, lib, on_fail, arrays_only=False):
+    """returns the number of paired calls executed.  arrays_only (C15): only the question whether the numpy arrays that
+    were handed in as control points are still what the caller made them"""
     r = VectorReplayer(lib, "fraction")
     n = 0
     for t1, t2 in pair_up(records):
@@ -357,6 +365,12 @@ def vector_replay(records, lib, on_fail):
         if "b" in t1["pre"]:
             live["b"] = None
         cls, val, exc = r.execute(live, a)
+        changed = r.user_arrays_changed() if arrays_only else []
+        if arrays_only and not changed:
+            continue
+        if changed:
+            fails.append(f"the numpy arrays passed as control points were modified in place by {name} (indices {changed}): "
+                         "another curve built from the same arrays, or the caller, sees other points now")
         c1, c2 = t1["ret"]["class"], t2["ret"]["class"]
         # the joint outcome: both coordinates succeed => success; one refuses => the call must refuse
         if c1 == c2:
@@ -388,6 +402,9 @@ def vector_replay(records, lib, on_fail):
                     fails.append(f"coordinate {k} of the state: got {got[k]}, spec {t['post'][obj]}")
             if not fails:
                 fails += compare_values(r, name, (t1, t2), val)
+        if not fails and not arrays_only and cls == "ok" and isinstance(val, dict):
+            # returned 2-D curves are mutated (their point arrays in place): the receiver must not follow
+            fails += r.check_independent(live, a, val)
         if fails:
             on_fail(dict(t1, _pair=t2), fails)
     return n
